@@ -2,7 +2,10 @@ import Pcore.Proofs.TlsDefs
 import Pcore.Proofs.TlsReach
 import Pcore.Proofs.TlsLoaders
 import Pcore.Proofs.Gid
+import Pcore.Proofs.GidFacts
+import Pcore.Proofs.TlsRefine
 import Pcore.Model.TlsFacts
+import Pcore.Generated.GidFacts
 /-!
 # C14 — Contexts are confined to their goroutine and dynamic scope
 
@@ -54,16 +57,27 @@ Full statement / proved / missing
   `C14s_fork_view` (fork isolation of context objects per step: only contexts installed for the stepping goroutine are
   written; a waiting child keeps the view of the Fork call), `C14s_released_goroutine`, `C14s_released`.     **proved**
   `C14s_defs_step`: a micro-step writes only the defining loader of the stepping goroutine's current body context.  **proved**
+  REFINEMENT big-step ⊆ small-step — `C14_refines_partial` (`Proofs/TlsRefine.lean: sim_exec, run_refines`): for every program
+  and oracle, whenever the big-step run does not run out of fuel, a schedule of micro-steps leads from `Cfg.init p` to a
+  configuration with every goroutine ended whose shared state (tables, context objects, loader entries, log, `estab`, counters) IS
+  the big-step result; `C14_refines_reachable`, `C14_refines_log`.  So every big-step behaviour is a behaviour of the small-step
+  model and the `C14s_*` invariants hold of big-step runs too (`C14_run_current_via_small`).                          **proved**
+  Full statement `C14_refines_full` (no fuel hypothesis); missing: that `fuelFor p` always suffices (`(run .now s p).oof = false`;
+  the driver prints `fuel` otherwise, which no correspondence run has ever shown).
   Remaining for the small-step model: the loader-chain exclusivity invariant `LInv` over `Reachable` (needed to conclude from
   `C14s_defs_step` that a parent's `Load` answers do not depend on its children; proved for the big-step model:
-  `C14_parent_loads_unaffected`), and a refinement theorem big-step ⊆ small-step (both are tied to the code by the
-  correspondence run instead: `progs` = big-step, `progi` = small-step under leaf-level interleaving).
+  `C14_parent_loads_unaffected`, and through the refinement for every nested execution of the small-step model).
   Atomicity of a micro-step: one call into pcore up to where it calls back the actor, or one deferred function.
 * SECOND TIE — `C14_facts_now` + `C14_facts_*`: the shape table regenerated from px/context.go, internal/context.go,
   internal/runtime.go, threadlocal/gid.go on every run (family `ctxfacts`) equals the shape the model mirrors; it selects
   the model variant the driver runs (`implVer`, `C14_impl_ver`, `C14_impl_*`).
 * GOROUTINE IDS — `C14_getg`, `C14_getg_injective`, `C14_getg_iff`: the digit loop of `threadlocal.getg()` returns the id the
   runtime printed, for all ids below 2^63 (sharp), so distinct goroutines get distinct table keys (`Model/Gid.lean`).
+  `C14_gid_facts_std`, `C14_gid_facts_roomy`, `C14_getg_impl`, `C14_getg_impl_injective`: the same over the constants REGENERATED from
+  `threadlocal/gid.go` on every run (family `gidfacts`: buffer size, slice handed to `runtime.Stack`, prefix length, digit bounds,
+  radix): the obligation is `prefixLen + 19 ≤ min stackLen bufLen`.  `C14_getg_buffer_iff`: for every standard table that bound
+  is EXACTLY what makes the parser exact below 2^63; `C14_getg_first_cut` / `C14_getg_collide`: when it fails the id
+  `10^(room-10) < 2^63` is cut to its leading digits and it and its successor share one goroutine-local table.       **proved**
 * missing / trusted (DESIGN §5): that `runtime.Stack` prints "goroutine N [" with N the goroutine's unique id and that ids are
   not reused while a table exists; Go's memory model (the lock-protected `tls` map is assumed linearizable; a micro-step is
   atomic); free-running goroutines are exercised on the implementation only (`@free`).
@@ -475,6 +489,48 @@ example : ((Cfg.steps sampleSched2 (Cfg.init sampleInter)).gs.map fun g => (g.gi
 example : ∀ gid, (Cfg.steps sampleSched2 (Cfg.init sampleInter)).w.tls gid = none :=
   (C14s_released (reachable_steps _ Reachable.init) (by decide)).1
 
+/-! ## refinement: every big-step run is an execution of the small-step model (`Proofs/TlsRefine.lean`) -/
+
+/-- full statement: for EVERY program and oracle the big-step run of the harness op is realised by a schedule of micro-steps of
+    the small-step semantics that ends with every goroutine ended and the same shared state -/
+def C14_refines_full : Prop :=
+  ∀ (sched : List Nat) (p : Prog), ∃ steps : List Nat,
+    (Cfg.steps steps (Cfg.init p)).w = strip (run .now sched p) ∧
+    (∀ g ∈ (Cfg.steps steps (Cfg.init p)).gs, g.done = true)
+
+/-- proved part: whenever the big-step run did not run out of fuel (`oof`; the driver prints `fuel` then).  Missing for the full
+    statement: `fuelFor p` is always enough.  `strip` forgets only the big-step model's own scheduling bookkeeping (`pending`, which
+    is empty at the end, and the unconsumed rest of the oracle). -/
+theorem C14_refines_partial (sched : List Nat) (p : Prog) (hok : (run .now sched p).oof = false) :
+    ∃ steps : List Nat,
+      (Cfg.steps steps (Cfg.init p)).w = strip (run .now sched p) ∧
+      (∀ g ∈ (Cfg.steps steps (Cfg.init p)).gs, g.done = true) ∧ (run .now sched p).pending = [] :=
+  run_refines sched p hok
+
+/-- … hence the result of a big-step run is the shared state of a REACHABLE final configuration of the small-step model -/
+theorem C14_refines_reachable (sched : List Nat) (p : Prog) (hok : (run .now sched p).oof = false) :
+    ∃ c : Cfg, Reachable p c ∧ c.w = strip (run .now sched p) ∧ (∀ g ∈ c.gs, g.done = true) := by
+  obtain ⟨steps, h1, h2, _⟩ := run_refines sched p hok
+  exact ⟨_, reachable_steps steps Reachable.init, h1, h2⟩
+
+/-- the observations are the same: log, goroutine-local tables, context objects, loader entries -/
+theorem C14_refines_log (sched : List Nat) (p : Prog) (hok : (run .now sched p).oof = false) :
+    ∃ c : Cfg, Reachable p c ∧ c.w.log = (run .now sched p).log ∧ c.w.tls = (run .now sched p).tls ∧
+      c.w.ctxs = (run .now sched p).ctxs ∧ c.w.defs = (run .now sched p).defs ∧ c.w.estab = (run .now sched p).estab := by
+  obtain ⟨c, hr, hw, _⟩ := C14_refines_reachable sched p hok
+  exact ⟨c, hr, by rw [hw]; rfl, by rw [hw]; rfl, by rw [hw]; rfl, by rw [hw]; rfl, by rw [hw]; rfl⟩
+
+/-- an instance of the transfer: `current` for big-step runs, obtained from the small-step invariant `C14s_current` (every
+    reachable configuration) through the refinement (it is also proved directly: `C14_current`) -/
+theorem C14_run_current_via_small (sched : List Nat) (p : Prog) (hok : (run .now sched p).oof = false)
+    (g : Gid) (cur : Option CtxId) (lex : CtxId) (tag : Option Nat) (st : List Nat)
+    (hm : (g, Ev.obs cur lex tag st) ∈ (run .now sched p).log) : cur = some lex := by
+  obtain ⟨c, hr, hl, _⟩ := C14_refines_log sched p hok
+  exact C14s_current hr g cur lex tag st (by rw [hl]; exact hm)
+
+/-- non-vacuity: the runs of the samples above do not run out of fuel -/
+example : (run .now [0, 0, 1] sampleNest).oof = false ∧ (run .now [0, 0, 0, 1] sampleFork).oof = false := by decide
+
 /-! ## second tie: the regenerated shape table selects the model variant -/
 
 /-- obligation over the table regenerated from px/context.go, internal/context.go, internal/runtime.go, threadlocal/gid.go on every
@@ -531,6 +587,80 @@ theorem C14_getg_iff {n : Nat} (h0 : 0 < n) (hn : n < 10 ^ 54) {rest : List UInt
     Pcore.Gid.getg64 (Pcore.Gid.stackBuf n rest) = some (n : Int) ↔ n < 2 ^ 63 := Pcore.Gid.getg64_stackBuf_iff h0 hn hr
 
 example : Pcore.Gid.stops (0x20 :: []) = true := by decide
+
+/-! ### … over the constants regenerated from `threadlocal/gid.go` (`Generated/GidFacts.lean`, `Model/GidFacts.lean`) -/
+
+/-- obligation over the regenerated table: `getg()` is the modelled idiom with the standard digit-loop constants (loop from
+    byte 10, digits `'0'..'9'`, radix ten from 0, panic on 0); no statement was left unrecognised -/
+theorem C14_gid_facts_std : Pcore.Generated.gidFacts.std = true := by decide
+
+/-- obligation over the regenerated table: the slice handed to `runtime.Stack` holds `"goroutine "` and the 19 digits of the
+    largest `int64` id.  A smaller buffer breaks THIS theorem (the driver's `hi`/`gidlive` ops then name the first id that is
+    cut and the harness looks for live goroutines that share a table). -/
+theorem C14_gid_facts_roomy : Pcore.Generated.gidFacts.roomy = true := by decide
+
+/-- the code as it is (constants from the sources): `getg()` returns the printed id for every goroutine id below 2^63 -/
+theorem C14_getg_impl {n : Nat} (h0 : 0 < n) (hn : n < 2 ^ 63) {rest : List UInt8} (hr : Pcore.Gid.stops rest = true) :
+    Pcore.GidFacts.getg64F Pcore.Generated.gidFacts (Pcore.GidFacts.stackBufF Pcore.Generated.gidFacts n rest) = some (n : Int) :=
+  Pcore.GidFacts.getg64F_exact C14_gid_facts_std C14_gid_facts_roomy h0 hn hr
+
+/-- … so goroutines that are alive together never share a goroutine-local table -/
+theorem C14_getg_impl_injective {n m : Nat} (h0 : 0 < n) (hn : n < 2 ^ 63) (h0' : 0 < m) (hm : m < 2 ^ 63)
+    {rest rest' : List UInt8} (hr : Pcore.Gid.stops rest = true) (hr' : Pcore.Gid.stops rest' = true)
+    (h : Pcore.GidFacts.getg64F Pcore.Generated.gidFacts (Pcore.GidFacts.stackBufF Pcore.Generated.gidFacts n rest) =
+         Pcore.GidFacts.getg64F Pcore.Generated.gidFacts (Pcore.GidFacts.stackBufF Pcore.Generated.gidFacts m rest')) : n = m :=
+  Pcore.GidFacts.getg64F_injective C14_gid_facts_std C14_gid_facts_roomy h0 hn h0' hm hr hr' h
+
+example : 0 < 1234567 ∧ 1234567 < 2 ^ 63 ∧ Pcore.Gid.stops Pcore.GidFacts.restRunning = true := by decide
+
+/-- the bound of the obligation is sharp, for EVERY table with the standard loop constants: the parser is exact on all ids
+    below 2^63 iff `prefixLen + 19 ≤ min stackLen bufLen` -/
+theorem C14_getg_buffer_iff {f : Pcore.GidFacts.Facts} (hs : f.std = true) :
+    (∀ (n : Nat) (rest : List UInt8), 0 < n → n < 2 ^ 63 → Pcore.Gid.stops rest = true →
+      Pcore.GidFacts.getg64F f (Pcore.GidFacts.stackBufF f n rest) = some (n : Int)) ↔ f.roomy = true :=
+  Pcore.GidFacts.getg64F_exact_iff hs
+
+/-- when it fails, the concrete id: `10^(room-10)` is a legal id (below 2^63) whose key is its first `room-10` digits (or
+    `getg()` panics: no room for a digit); every smaller id is still exact (`C14_getg_below_cut`) -/
+theorem C14_getg_first_cut {f : Pcore.GidFacts.Facts} (hs : f.std = true) (hr : f.roomy = false) (rest : List UInt8) :
+    0 < f.firstCut ∧ f.firstCut < 2 ^ 63 ∧
+    Pcore.GidFacts.getg64F f (Pcore.GidFacts.stackBufF f f.firstCut rest) ≠ some (f.firstCut : Int) ∧
+    Pcore.GidFacts.getg64F f (Pcore.GidFacts.stackBufF f f.firstCut rest) =
+      if f.room ≤ 10 then none else some ((10 ^ (f.room - 11) : Nat) : Int) :=
+  Pcore.GidFacts.getg64F_firstCut hs hr rest
+
+theorem C14_getg_below_cut {f : Pcore.GidFacts.Facts} (hs : f.std = true) {n : Nat} (h0 : 0 < n) (hn : n < 2 ^ 63)
+    (hc : n < f.firstCut) {rest : List UInt8} (hst : Pcore.Gid.stops rest = true) :
+    Pcore.GidFacts.getg64F f (Pcore.GidFacts.stackBufF f n rest) = some (n : Int) :=
+  Pcore.GidFacts.getg64F_exact_below hs h0 hn hc hst
+
+/-- … and two consecutive ids — goroutines started back to back — then share one goroutine-local table -/
+theorem C14_getg_collide {f : Pcore.GidFacts.Facts} (hs : f.std = true) (hr : f.roomy = false) (h10 : 10 < f.room)
+    (rest rest' : List UInt8) :
+    f.firstCut + 1 < 2 ^ 63 ∧
+    Pcore.GidFacts.getg64F f (Pcore.GidFacts.stackBufF f f.firstCut rest) =
+      Pcore.GidFacts.getg64F f (Pcore.GidFacts.stackBufF f (f.firstCut + 1) rest') :=
+  Pcore.GidFacts.getg64F_collide hs hr h10 rest rest'
+
+/-- non-vacuity: the table of the seeded change C14-s8 (16-byte buffer) is standard, not roomy, longer than the prefix; its
+    first cut id is 1 000 000, read as 100 000 -/
+example : Pcore.GidFacts.factsBuf16.std = true ∧ Pcore.GidFacts.factsBuf16.roomy = false ∧ 10 < Pcore.GidFacts.factsBuf16.room ∧
+    Pcore.GidFacts.factsBuf16.firstCut = 1000000 ∧
+    Pcore.GidFacts.keyOf Pcore.GidFacts.factsBuf16 1000000 = some 100000 := by decide
+/-- non-vacuity of `C14_getg_below_cut` on that table -/
+example : 0 < 999999 ∧ 999999 < 2 ^ 63 ∧ 999999 < Pcore.GidFacts.factsBuf16.firstCut := by decide
+
+/-- for the table written by hand from /repo HEAD the parametrised model IS `Model/Gid.lean`'s `getg64` (so `C14_getg` is the
+    instance of the general statement at the 64-byte buffer).  Deliberately NOT an obligation over the regenerated table: a
+    larger buffer is a harmless change (selftest/C14/harmless-gid-buf128-rename.diff stays green). -/
+theorem C14_getg_now_is_getg64 (buf : List UInt8) :
+    Pcore.GidFacts.getg64F Pcore.GidFacts.factsNow buf = Pcore.Gid.getg64 buf := Pcore.GidFacts.getg64F_now buf
+
+/-- the driver's guard (`hi`, `gidlive`): on the regenerated table no id in any range below 2^63 is inexact -/
+theorem C14_gid_guard (start count : Nat) (h0 : 0 < start) (hlt : start + count ≤ 2 ^ 63) :
+    Pcore.GidFacts.firstInexact Pcore.Generated.gidFacts start count = none :=
+  Pcore.GidFacts.firstInexact_none C14_gid_facts_std C14_gid_facts_roomy start count h0 hlt
+example : 0 < 1000000 ∧ 1000000 + 64 ≤ 2 ^ 63 := by decide
 
 /-! ## the original code (`Ver.before`, tag verif-base) violates the property — witnesses -/
 
